@@ -153,6 +153,32 @@ def literal_tables(run, mods, tier):
                 bad.setdefault('escape \\%s' % esc, []).append((t1, repr(extract(t1))))
         except Exception as e:
             bad.setdefault('escape \\%s' % esc, []).append((t1, repr(e)))
+    # what follows an escape must not change its reading: each JSON escape followed by every printable ASCII character, and the same
+    # tables (raw characters, escapes, followers) with fold_ops on -- operator folding may not touch a literal that stands alone
+    def extract_fold(text):
+        with warnings.catch_warnings():
+            warnings.simplefilter('ignore')
+            return extractor.ast_to_dict(par().parse('x = %s;' % text), fold_ops=True)['x']
+    followers = [chr(c) for c in range(0x20, 0x7f) if chr(c) not in '"\\']
+    for esc in '"\\/bfnrt':
+        for f in followers:
+            t1 = '"\\%s%s"' % (esc, f)
+            for label, fn in (('', extract), (' (fold_ops)', extract_fold)):
+                n += 1
+                try:
+                    if fn(t1) != json.loads(t1):
+                        bad.setdefault('escape \\%s + following character%s' % (esc, label), []).append((t1, repr(fn(t1))))
+                except Exception as e:
+                    bad.setdefault('escape \\%s + following character%s' % (esc, label), []).append((t1, repr(e)))
+    for text in ['"' + ''.join(followers) + '"', '"{id}"', '"{{}}"', '"%s %d {0}"', '"a{b}c"']:
+        for wrap in ('%s', '{%s: %s}' % (text, text), '[%s]' % text):
+            t1 = wrap % text if wrap == '%s' else wrap
+            n += 1
+            try:
+                if extract_fold(t1) != json.loads(t1):
+                    bad.setdefault('string with format characters (fold_ops)', []).append((t1[:60], repr(extract_fold(t1))[:80]))
+            except Exception as e:
+                bad.setdefault('string with format characters (fold_ops)', []).append((t1[:60], repr(e)))
     # number shapes: -? int frac? exp?
     ints = ['0', '1', '9', '10', '19', '123', '9007199254740993', '1' + '0' * 30]
     fracs = ['', '.0', '.5', '.25', '.000', '.123456789012345678']
